@@ -347,6 +347,7 @@ func runFaulty(e *Env, p *Plan) {
 			w.Register(op)
 			e.S.Go("gate-"+strconv.Itoa(op.Tok), func() {
 				<-faultC
+				simrt.Yield("window-wake")
 				e.Probe("window-call-issued")
 				w.Start(op, nil)
 			})
